@@ -7,10 +7,11 @@ VERIF = os.path.dirname(os.path.dirname(os.path.abspath(__file__)))
 
 
 class Ob:
-    __slots__ = ("rule", "key", "ok", "detail", "site", "what")
+    __slots__ = ("rule", "key", "ok", "detail", "site", "what", "skey")
 
-    def __init__(self, rule, key, ok, detail="", site="", what=""):
+    def __init__(self, rule, key, ok, detail="", site="", what="", skey=None):
         self.rule = rule
+        self.skey = ("%s | %s" % (rule, skey)) if skey else None
         self.key = "%s | %s" % (rule, key)
         self.ok = bool(ok)
         self.detail = detail
@@ -18,7 +19,7 @@ class Ob:
         self.what = what
 
     def as_dict(self):
-        return dict(rule=self.rule, key=self.key, ok=self.ok, detail=self.detail, site=self.site, what=self.what)
+        return dict(rule=self.rule, key=self.key, structural_key=self.skey, ok=self.ok, detail=self.detail, site=self.site, what=self.what)
 
 
 class Report:
@@ -33,8 +34,8 @@ class Report:
         self.design_ref = design_ref
         self.floors = []
 
-    def ob(self, rule, key, ok, detail="", site="", what=""):
-        o = Ob(rule, key, ok, detail, site, what)
+    def ob(self, rule, key, ok, detail="", site="", what="", skey=None):
+        o = Ob(rule, key, ok, detail, site, what, skey)
         self.obs.append(o)
         return o
 
@@ -57,21 +58,21 @@ def load_known():
         return json.load(fh)
 
 
-def finish(report, tier, t0, facts_info, extra_cov=None):
+def finish(report, tier, t0, facts_info, extra_cov=None, quiet=False):
     known = load_known()
     known_keys = dict(((f["property"], f["key"]), f) for f in known.get("findings", []))
     failing = [o for o in report.obs if not o.ok]
     viol = []
     kn = []
     for o in failing:
-        if (report.prop, o.key) in known_keys:
+        if (report.prop, o.key) in known_keys or (o.skey is not None and (report.prop, o.skey) in known_keys):
             kn.append(o)
         else:
             viol.append(o)
     os.makedirs(os.path.join(VERIF, "evidence", "replay"), exist_ok=True)
     lines = []
     for o in kn:
-        lines.append("KNOWN-FINDING: property=%s %s" % (report.prop, o.key))
+        lines.append("KNOWN-FINDING: property=%s %s%s" % (report.prop, o.key, ("  [%s]" % o.skey) if o.skey else ""))
     for i, o in enumerate(viol):
         rp = os.path.join("evidence", "replay", "%s-%d.json" % (report.prop, i))
         with open(os.path.join(VERIF, rp), "w") as fh:
@@ -138,10 +139,12 @@ def finish(report, tier, t0, facts_info, extra_cov=None):
     try:
         print("property %s tier=%s: %d obligations, %d discharged, %d known finding(s), %d violation(s)  [%.1fs]"
               % (report.prop, tier, n_ob, n_ok, len(kn), len(viol), time.time() - t0))
-        for k, v in sorted(by_rule.items()):
-            print("  %-8s %4d/%-4d" % (k, v[1], v[0]))
+        if not quiet:
+            for k, v in sorted(by_rule.items()):
+                print("  %-8s %4d/%-4d" % (k, v[1], v[0]))
         for l in lines:
-            print(l)
+            if not quiet or l.startswith("VIOLATION") or l.startswith("KNOWN") or l.startswith("  rule"):
+                print(l)
         import sys
         sys.stdout.flush()
     except BrokenPipeError:
